@@ -15,6 +15,11 @@ afterwards - and sub-commands attached one by one or with one call of add_(sub_)
 oracle judges the selection on the tree AS CONFIGURED PER COMMAND (what each call said when it was
 made); the model of the configuration calls (Model/AliasCfg.lean, entry c03.aliases) is compared with
 the aliases of every real command config.
+
+About a third of the cases resolve 1-3 other lines (`before`) on the SAME application first (an application object is
+long-lived and caches its resolver): the line of the case - more than half of the time one with no leading token that
+names a command, after lines that reached deep commands - must select what the statement says and what it selects
+alone on a fresh application; the whole history is compared with the model (c03.history, resolveHistory).
 """
 from harness import app_common as ac
 from harness import parser_common as pc
@@ -27,7 +32,7 @@ REQUIRED_THEOREMS = ["Clikit.Props.C03." + n for n in (
     "resolve_unknown_first", "resolve_no_lead", "resolve_deepest", "pickDefault_first_parsable",
     "pickDefault_none_parsable", "sameLookupsB_sound", "alias_invariant_decided", "get?_alias", "lead_of_path",
     "walk_from_some", "IsPath.unique", "aliases_frame", "aliases_frame_run", "set_list_keeps", "set_from_keeps",
-    "shared_list_siblings")]
+    "shared_list_siblings", "history_each_alone", "history_nth_alone", "history_no_lead", "history_unknown_first")]
 TECHNIQUE = ("Lean 4 theorems on a model of DefaultResolver/CommandCollection (longest-prefix walk against a declarative "
              "path relation, alias invariance, options/tail never name commands) + differential correspondence on "
              "generated trees x lines, with a declarative oracle")
@@ -40,7 +45,11 @@ LEVEL_TEXT = ("Proved in Lean for EVERY command tree (any depth/fan-out) and tok
               "(sub-)command rule (first parsable, else first) and the three shapes of resolve. The aliases a command is "
               "configured with (Model/AliasCfg.lean: add_alias / add_aliases / set_aliases with caller-owned, possibly shared "
               "lists): a call on another command's config or a change of a caller's list never changes them "
-              "(aliases_frame, aliases_frame_run, set_list_keeps, set_from_keeps, shared_list_siblings). The model is tied to the code "
+              "(aliases_frame, aliases_frame_run, set_list_keeps, set_from_keeps, shared_list_siblings). Several resolves on one "
+              "application (one cached resolver object; resolveHistory threads the command the previous call reached through "
+              "the calls): every call answers what its line answers alone, a line without leading tokens selects among the "
+              "default commands and an unknown first token is undefined after ANY history (history_each_alone, "
+              "history_nth_alone, history_no_lead, history_unknown_first). The model is tied to the code "
               "by differential runs on generated trees x lines, the tree (incl. each command's flattened format) being read "
               "from the real Command objects; the configuration model by comparing, on every case, the aliases of every real "
               "command config with the model's answer to the same calls (c03.aliases).")
@@ -67,7 +76,12 @@ RULE = ("generated trees (depth<=3, fan-out<=3, aliases incl. colliding, default
         "set_aliases(other.aliases) followed by add_alias; sub-commands / commands attached with one call of "
         "add_sub_command_configs / add_command_configs on a list the caller then appends a decoy to); path tokens are "
         "also drawn from the words that are aliases ELSEWHERE in the tree or only passed through a configuration call; non-trivial = the line has >= 1 leading token or the app has a default command; "
-        "distinct = (tree, tokens)")
+        "about 30 % of the cases first resolve 1-3 other lines on the SAME application (lines of the same tree, or lines "
+        "walking as deep into the tree as they can, by names or aliases, with or without the values the command wants) "
+        "and then the line of the case, which in 55 % of them is turned into a line with no leading token naming a "
+        "command (empty | an option first | `--` first | an unknown first word); every call of the history is compared "
+        "with the model, the last one with the statement and with the same line on a fresh application; "
+        "distinct = (tree, tokens, earlier lines)")
 TRUSTED_BASE = [
     "Lean 4.33 kernel; axioms within propext, Classical.choice, Quot.sound (audited per theorem on every run)",
     "lean/Clikit/Model/Resolver.lean + Model/Parser.lean: hand-written models (modelled, not verified; tied by the correspondence)",
@@ -81,6 +95,9 @@ ASSUMPTIONS = [
     "(c03.same) and compared with the real collections; all other hypotheses of the C03 theorems are case conditions on the "
     "universally quantified tree and tokens (which shape of resolve applies), not facts taken from the real objects",
     "a bare ApplicationConfig with the DefaultResolver (no help/version listeners: those are C09's subject)",
+    "one application object may resolve any number of lines one after the other (its config caches the resolver): the "
+    "selection of a line is a function of the tree and the line, never of the lines resolved before (histories of 1-3 "
+    "earlier lines are generated; the model states it for every history)",
     "the tree 'as configured' is what each configuration call said when it was made: a list handed to a setter stays the "
     "caller's (sharing it, or changing it afterwards, configures nothing); the configuration is finished before the "
     "application is built",
@@ -331,12 +348,64 @@ def _lines(rng, tree):
     return out
 
 
+# ---- several resolves on ONE application ----------------------------------------------------------
+# An application object is long-lived (a shell front-end, a test harness calling run() repeatedly): `before` = the lines
+# resolved on the SAME application before the line of the case.  The selection is a function of the tree and the line,
+# so the line must select what it selects alone on a fresh application - in particular a line with NO leading token
+# that names a command (empty, options only, `--` first, an unknown first token) after lines that reached deep commands.
+def _deep_line(rng, tree):
+    """a line whose leading tokens walk as deep into the tree as they can (names or aliases), sometimes with the
+    values the reached command wants"""
+    level, toks, node = ac.enabled(tree["commands"]), [], None
+    while True:
+        named = [c for c in level if not c["anonymous"]]
+        if not named or (toks and rng.random() < 0.2):
+            break
+        node = rng.choice(named)
+        toks.append(rng.choice([node["name"]] + node["aliases"]) if rng.random() < 0.4 else node["name"])
+        level = ac.enabled(node["subs"])
+    if node is not None and rng.random() < 0.6:
+        for a in node["args"]:
+            if a["mode"] in ("required", "multi_required") or rng.random() < 0.5:
+                v = pc.value_for(rng, a["type"], a["nullable"])
+                toks.append(v if not v.startswith("-") and v != "" else "x")
+    return toks
+
+
+def _zero_lead(rng, tree, toks):
+    """a line with no leading token that names a command, made of the tokens of `toks`"""
+    r = rng.random()
+    if r < 0.25:
+        return []
+    if r < 0.5:
+        opt = rng.choice(["--gflag" if tree.get("global_flag") else "-g", "--unknown", "-Y", ""])
+        return [opt] + toks[:rng.randint(0, 2)]
+    if r < 0.75:
+        return ["--"] + toks
+    return [rng.choice(["nope", "ad", "servr"])] + toks
+
+
+def _with_history(rng, tree, lines, i):
+    toks = lines[i]
+    pool = [l for j, l in enumerate(lines) if j != i and l]
+    before = []
+    for _ in range(rng.randint(1, 3)):
+        before.append(list(rng.choice(pool)) if pool and rng.random() < 0.4 else _deep_line(rng, tree))
+    if rng.random() < 0.55:
+        toks = _zero_lead(rng, tree, toks)
+    return {"tree": tree, "tokens": toks, "before": before}
+
+
 def generate(tier, rng):
     n = 700 if tier == "quick" else 12000
     for _ in range(n):
         tree = _alias_setup(rng, ac.gen_tree(rng))
-        for toks in _lines(rng, tree):
-            yield {"tree": tree, "tokens": toks}
+        lines = _lines(rng, tree)
+        for i, toks in enumerate(lines):
+            if rng.random() < 0.3:
+                yield _with_history(rng, tree, lines, i)
+            else:
+                yield {"tree": tree, "tokens": toks}
 
 
 def exhaustive(tier):
@@ -445,7 +514,12 @@ def run_impl(case):
     from clikit.resolver.default_resolver import DefaultResolver
     app = ac.build_app(case["tree"])
     tokens = case["tokens"]
+    # the lines resolved on this very application before the line of the case
+    hist = [_resolve(app, l) for l in case.get("before") or []]
     obs = {"res": _resolve(app, tokens), "nodes": ac.extract_app(app), "configured": _config_aliases(app)}
+    if case.get("before"):
+        obs["hist"] = hist + [obs["res"]]
+        obs["res_alone"] = _resolve(ac.build_app(case["tree"]), tokens)       # the line alone, fresh application
     r = DefaultResolver()
     obs["lead"] = r.get_arguments_to_test(iter(tokens))
     rs = _respellings(app, obs["lead"])
@@ -474,34 +548,50 @@ def run_impl(case):
 def model_requests(case):
     app = ac.build_app(case["tree"])
     nodes = ac.extract_app(app)
-    ints, floats = pc.conv_tables(ac.all_texts(nodes, case["tokens"]))
+    before = case.get("before") or []
+    ints, floats = pc.conv_tables(ac.all_texts(nodes, [t for l in before for t in l] + list(case["tokens"])))
     # the hypothesis of alias_invariant (SameLookups), decided by the model on the tree read from the REAL application
     # for the leading tokens against their two respellings (theorem sameLookupsB_sound)
     from clikit.resolver.default_resolver import DefaultResolver
     lead = DefaultResolver().get_arguments_to_test(iter(case["tokens"]))
     rs = _respellings(app, lead)
-    return [{"m": "c03.resolve", "commands": nodes, "tokens": case["tokens"], "ints": ints, "floats": floats},
+    reqs = [{"m": "c03.resolve", "commands": nodes, "tokens": case["tokens"], "ints": ints, "floats": floats},
             {"m": "c03.lead", "tokens": case["tokens"]},
             {"m": "c03.same", "commands": nodes, "names": lead, "names2": rs["canon"]},
             {"m": "c03.same", "commands": nodes, "names": lead, "names2": rs["alias"]},
             _alias_requests(case["tree"])[0]]
+    if before:
+        # the whole history on one resolver object (Model/Resolver.resolveHistory, theorem history_each_alone)
+        reqs.append({"m": "c03.history", "commands": nodes, "lines": before + [case["tokens"]], "ints": ints,
+                     "floats": floats})
+    return reqs
 
 
-def model_obs(case, answers):
-    r = answers[0]
+def _canon_res(r):
     if "ok" in r:
         o = r["ok"]
         r = {"ok": {"path": o["path"], "args_set": sorted(o["args_set"]), "opts_set": sorted(o["opts_set"])}}
+    return r
+
+
+def model_obs(case, answers):
+    r = _canon_res(answers[0])
     paths = _alias_requests(case["tree"])[1]
-    return {"res": r, "lead": answers[1], "same_canon": answers[2], "same_alias": answers[3],
-            "configured": [[p, a] for p, a in zip(paths, answers[4])]}
+    res = {"res": r, "lead": answers[1], "same_canon": answers[2], "same_alias": answers[3],
+           "configured": [[p, a] for p, a in zip(paths, answers[4])]}
+    if case.get("before"):
+        res["hist"] = [_canon_res(x) for x in answers[5]]
+    return res
 
 
 def impl_view(case, obs):
     # same_canon: a command is always found under its own name (sibling names are distinct): must be true;
     # same_alias: an alias may be shadowed by a sibling's name or a later registration: whatever the real collections say
-    return {"res": obs["res"], "lead": obs["lead"], "same_canon": True, "same_alias": obs["respell"]["same_alias"],
-            "configured": obs["configured"]}
+    res = {"res": obs["res"], "lead": obs["lead"], "same_canon": True, "same_alias": obs["respell"]["same_alias"],
+           "configured": obs["configured"]}
+    if case.get("before"):
+        res["hist"] = obs["hist"]          # every call of the history, in order, on the one application
+    return res
 
 
 # ---- the statement, declaratively ------------------------------------------------------------
@@ -566,6 +656,18 @@ def _selection(res):
 
 
 def oracle(case, obs):
+    v = _oracle_line(case, obs)
+    if v is None and "res_alone" in obs and obs["res_alone"] != obs["res"]:
+        # the selection is a function of the tree and the line: what was resolved before on the application is no part
+        return "after resolving %r on the same application the line %r selects %s; alone (fresh application) it selects %s" % (
+            case["before"], case["tokens"], str(obs["res"])[:150], str(obs["res_alone"])[:150])
+    if v is not None and case.get("before"):
+        v += " (line resolved after %r on the same application; alone it selects %s)" % (
+            case["before"], str(obs.get("res_alone"))[:150])
+    return v
+
+
+def _oracle_line(case, obs):
     want, ls = _expected(case, obs)
     if obs["lead"] != ls:
         return "leading tokens %r, the statement's leading non-option tokens are %r" % (obs["lead"], ls)
@@ -598,19 +700,44 @@ def oracle(case, obs):
 
 def nontrivial_key(case, obs):
     import json
-    if obs["lead"] or any(c["default"] for c in ac.enabled(case["tree"]["commands"])):
-        return json.dumps([case["tree"], case["tokens"]], sort_keys=True)
+    if obs["lead"] or any(c["default"] for c in ac.enabled(case["tree"]["commands"])) or case.get("before"):
+        return json.dumps([case["tree"], case["tokens"], case.get("before")], sort_keys=True)
     return None
 
 
 def bucket(case, obs):
     r = obs["res"]
+    h = ""
+    if case.get("before"):
+        h = "|after %d call(s), deepest %d" % (len(case["before"]),
+                                               max([len(x["ok"]["path"]) if "ok" in x else 0 for x in obs["hist"][:-1]]))
     if "err" in r:
-        return "err=%s|lead=%d" % (r["err"], len(obs["lead"]))
-    return "ok|depth=%d|lead=%d" % (len(r["ok"]["path"]), len(obs["lead"]))
+        return "err=%s|lead=%d%s" % (r["err"], len(obs["lead"]), h)
+    return "ok|depth=%d|lead=%d%s" % (len(r["ok"]["path"]), len(obs["lead"]), h)
 
 
 def shrink(case):
+    b = case.get("before")
+    if b:
+        # fewer / shorter earlier calls first; then the plain shrinks with the history kept
+        for i in range(len(b)):
+            c = dict(case)
+            c["before"] = b[:i] + b[i + 1:]
+            if not c["before"]:
+                del c["before"]
+            yield c
+        for i in range(len(b)):
+            for j in range(len(b[i]) - 1, -1, -1):
+                c = dict(case)
+                c["before"] = b[:i] + [b[i][:j] + b[i][j + 1:]] + b[i + 1:]
+                yield c
+    for c in _shrink_line(case):
+        if b:
+            c["before"] = b
+        yield c
+
+
+def _shrink_line(case):
     import copy
     t = case["tokens"]
     for i in range(len(t)):
@@ -656,3 +783,7 @@ def neighbours(case):
     for w in words:
         for p in paths:
             yield {"tree": case["tree"], "tokens": p + [w]}
+    # the line (and its relatives without a leading command name) after a call that reached each command of the tree
+    for p in paths[1:]:
+        for toks in (case["tokens"], [], ["--"] + list(case["tokens"]), ["nope"]):
+            yield {"tree": case["tree"], "tokens": list(toks), "before": [p]}
